@@ -56,6 +56,7 @@ class time_limit:
         return False
 
 
+PAR_DTYPES = [np.float64, np.float64, np.int64, np.float32, np.int32, np.float64, np.int16]
 GRID = 2.0 ** -30          # all generated times are multiples of this (exact in float64 and < 2^62 as numerators)
 SLOPE_SCALE = 10 ** 18
 FCN_SCALE = 10 ** 12
@@ -87,6 +88,21 @@ def enc_input_full(case, n):
     body = to_dy(case["tbin"]) + enc_qlist(case["tsa"]) + enc_qlist(case["tsb"]) + enc_qlist(case["queries"])
     ks = [to_dy(v)[1] for v in [case["tbin"]] + case["tsa"] + case["tsb"] + case["queries"]]
     return [8, 1 if case["linear"] else 0, max([0] + ks), n] + body
+
+
+def enc_input_coarse(case, n):
+    body = to_dy(case["tbin"]) + enc_qlist(case["tsa"]) + enc_qlist(case["tsb"])
+    ks = [to_dy(v)[1] for v in [case["tbin"]] + case["tsa"] + case["tsb"] + case["queries"]]
+    return [9, max([0] + ks), n] + body
+
+
+def model_side_cost(case, delta):
+    """Second-pass cost the MODEL would face when fed `delta`: events its first pass leaves unassigned (float estimate)."""
+    a = np.array(case["tsa"])[:, None] - delta
+    near = np.abs(a - np.array(case["tsb"])[None, :]) < case["tbin"]
+    nam = int((~near.any(axis=1)).sum())
+    nbm = int((~near.any(axis=0)).sum())
+    return nam * nbm * min(nam, nbm), nam
 
 
 def parse_model_full(out, na, nq):
@@ -178,6 +194,9 @@ def impl_run(case):
     from ibldsp import utils
     tsa = np.array(case["tsa"], dtype=np.float64)
     tsb = np.array(case["tsb"], dtype=np.float64)
+    if case.get("view"):          # non-contiguous views (stride 2 / negative-stride round trip): same values
+        tsa = np.repeat(tsa, 2)[::2]
+        tsb = tsb[::-1].copy()[::-1]
     tbin, linear, forced = case["tbin"], case["linear"], case.get("forced_rel")
     rec = {}
     orig_pm, orig_np = utils.parabolic_max, utils.np
@@ -200,6 +219,7 @@ def impl_run(case):
 
     res = {"status": "ok"}
     ret = None
+    plain = "not run"
     if _TIMEOUTS["n"] >= 3:
         return {"status": "exc", "exc": "TimeoutError", "msg": "not run: three earlier calls exceeded the time limit"}
     try:
@@ -210,6 +230,25 @@ def impl_run(case):
             ret = utils.sync_timestamps(tsa, tsb, tbin=tbin, return_indices=True, linear=linear)
             fcn, drift, ia, ib = ret
             fq = fcn(np.array(case["queries"], dtype=np.float64))
+            rec_main = dict(rec)
+            if case.get("also_plain"):
+                # the default return_indices=False path: (fcn, drift) only, same values as above
+                try:
+                    ret2 = utils.sync_timestamps(tsa, tsb, tbin, False, linear) if case.get("positional") else \
+                        utils.sync_timestamps(tsa, tsb, tbin=tbin, linear=linear)
+                    if not isinstance(ret2, tuple) or len(ret2) != 2:
+                        plain = "returned %s of length %s" % (type(ret2).__name__, len(ret2) if hasattr(ret2, "__len__") else "?")
+                    else:
+                        fq2 = np.asarray(ret2[0](np.array(case["queries"], dtype=np.float64)))
+                        same = np.array_equal(fq2, np.asarray(fq), equal_nan=True) and \
+                            (ret2[1] == drift or (ret2[1] != ret2[1] and drift != drift))
+                        plain = None if same else "drift %r vs %r, map values %s" % (ret2[1], drift, "equal" if np.array_equal(fq2, np.asarray(fq), equal_nan=True) else "differ")
+                except _CallTimeout:
+                    raise
+                except Exception as e2:        # noqa
+                    plain = "raised %s: %s" % (type(e2).__name__, str(e2)[:120])
+                rec.clear()
+                rec.update(rec_main)
     except BaseException as e:        # noqa  (whatever the implementation raises is an observation, not a harness crash)
         if isinstance(e, KeyboardInterrupt):
             raise
@@ -219,6 +258,8 @@ def impl_run(case):
                "msg": str(e)[:200]}
     finally:
         utils.parabolic_max, utils.np = orig_pm, orig_np
+    if case.get("also_plain") and res["status"] == "ok":
+        res["plain"] = plain
     # inputs must come back untouched (the model is a pure function)
     try:
         res["inputs_untouched"] = bool(np.array_equal(tsa, np.array(case["tsa"], dtype=np.float64)) and
@@ -357,7 +398,10 @@ def gen_natural(rng, small=False, integer_span=False, flavour=None, light=False)
         linear = rng.random() < 0.15
     held = sorted(da | db)
     queries = [float(ta[i]) for i in held] + [float(ta[0]), float(ta[-1]), float(q30((ta[0] + ta[-1]) / 2))]
-    return {"kind": kind, "flavour": flavour, "linear": linear, "tbin": 0.1, "forced_rel": None,
+    tbin = 0.1
+    if flavour is None and n <= 60 and rng.random() < 0.5:      # the tbin parameter on (short) domain trains
+        tbin = rng.choice([0.125, 0.2, 0.0625])
+    return {"kind": kind, "flavour": flavour, "linear": linear, "tbin": tbin, "forced_rel": None,
             "tsa": [float(ta[i]) for i in la], "tsb": [float(tb[i]) for i in lb], "queries": queries,
             "truth": {"la": la, "lb": lb, "drift_ppm": drift, "offset": off, "jmax": jmax,
                       "jit_a": jit_a, "held": held, "n": n, "t_all": [float(v) for v in ta]}}
@@ -432,11 +476,12 @@ def gen_parabolic(rng):
     return [rng.randrange(0, 30) for _ in range(n)]
 
 
-def impl_parabolic(xs):
+def impl_parabolic_2d(rows, dtype=np.float64):
+    """parabolic_max on a 2-D array: returns list of (ipeak, maxi) per row."""
     from ibldsp import utils
     if _TIMEOUTS["n"] >= 3:
         raise TimeoutError("not run: three earlier calls exceeded the time limit")
-    arr = np.array(xs, dtype=np.float64)
+    arr = np.array(rows, dtype=dtype)
     try:
         with warnings.catch_warnings(), time_limit(CALL_LIMIT_S):
             warnings.simplefilter("ignore")
@@ -444,7 +489,29 @@ def impl_parabolic(xs):
     except _CallTimeout as e:
         _TIMEOUTS["n"] += 1
         raise TimeoutError(str(e))
-    if not np.array_equal(arr, np.array(xs, dtype=np.float64)):
+    if not np.array_equal(arr, np.array(rows, dtype=dtype)):
+        raise ValueError("parabolic_max modified its input")
+    if not isinstance(r, tuple) or len(r) != 2:
+        raise ValueError("parabolic_max returned %s instead of a pair" % (type(r).__name__,))
+    ip, mx = np.asarray(r[0], dtype=np.float64), np.asarray(r[1], dtype=np.float64)
+    if ip.shape != (len(rows),) or mx.shape != (len(rows),):
+        raise ValueError("parabolic_max on a %s array returned shapes %s / %s" % (arr.shape, ip.shape, mx.shape))
+    return [(float(a), float(b)) for a, b in zip(ip, mx)]
+
+
+def impl_parabolic(xs, dtype=np.float64):
+    from ibldsp import utils
+    if _TIMEOUTS["n"] >= 3:
+        raise TimeoutError("not run: three earlier calls exceeded the time limit")
+    arr = np.array(xs, dtype=dtype)
+    try:
+        with warnings.catch_warnings(), time_limit(CALL_LIMIT_S):
+            warnings.simplefilter("ignore")
+            r = utils.parabolic_max(arr)
+    except _CallTimeout as e:
+        _TIMEOUTS["n"] += 1
+        raise TimeoutError(str(e))
+    if not np.array_equal(arr, np.array(xs, dtype=dtype)):
         raise ValueError("parabolic_max modified its input")
     if not isinstance(r, tuple) or len(r) != 2 or any(np.ndim(v) != 0 or isinstance(v, (str, bytes)) for v in r):
         raise ValueError("parabolic_max returned %s instead of two scalars" % (type(r).__name__,))
@@ -461,7 +528,7 @@ def span_is_integer(case):
 # --------------------------------------------------------------------------
 # property oracle on the implementation's outputs (natural trains only)
 # --------------------------------------------------------------------------
-RECALL_MIN = 0.9            # "nearly all true correspondences are returned"
+RECALL_MIN = 0.95           # "nearly all true correspondences are returned"
 HELD_TOL = 2e-3             # "millisecond-scale tolerance" at held-out events (interpolated, inside the matched range)
 
 
@@ -606,6 +673,11 @@ def run(ctx):
             [gen_natural(rng, flavour="long_drift") for _ in range(n_long)] + \
             [gen_natural(rng, flavour="long_drift_light") for _ in range(40 if thorough else 5)] + \
             [gen_natural(rng, flavour="ends_missing", small=rng.random() < 0.5) for _ in range(n_ends)]
+    for c in cases:
+        dom = c["kind"] in ("natural", "integer_span")
+        c["also_plain"] = dom or rng.random() < 0.15
+        c["positional"] = rng.random() < 0.3
+        c["view"] = rng.random() < 0.12
     meas = {}
     dist = {"natural": 0, "boundary": 0, "boundary_free": 0, "integer_span": 0, "coarse_offset_compared": 0,
             "coarse_offset_skipped_tie_under_fft": 0, "coarse_offset_skipped_bin_rounding": 0,
@@ -633,6 +705,11 @@ def run(ctx):
         if not res.get("inputs_untouched", True):
             report("sync_timestamps modified its input arrays", slim(case), {"kind": "input_modified"})
             continue
+        if res.get("plain"):
+            report("sync_timestamps(..., return_indices=False) differs from the return_indices=True call: %s" % res["plain"],
+                   slim(case), {"kind": "return_indices_false"})
+        dist["plain_calls"] = dist.get("plain_calls", 0) + ("plain" in res)
+        dist["view_inputs"] = dist.get("view_inputs", 0) + bool(case.get("view"))
         if res["status"] == "malformed":
             dist["impl_malformed_returns"] = dist.get("impl_malformed_returns", 0) + 1
             report("sync_timestamps returned a malformed result: %s" % res.get("msg"), slim(case), {"kind": "malformed"})
@@ -680,8 +757,18 @@ def run(ctx):
     # compared from this run.  Otherwise (tie between lags under an FFT correlation, float-vs-exact binning) the case
     # falls back to stage A (model fed the implementation's delta_t).
     freeb = [(ci, res) for ci, res in pending if cases[ci].get("forced_rel") is None and res.get("corr")]
-    fin = [enc_input_full(cases[ci], res["n"]) for ci, res in freeb]
-    fout = ext.run_many(fin, nproc=min(6, max(1, len(fin) // 30))) if fin else []
+    # B1: the coarse offset alone (cheap); B2: the whole function, only where the model's delta_t agrees with the
+    # implementation's — a disagreeing offset would send the model into an arbitrarily expensive second pass
+    cin = [enc_input_coarse(cases[ci], res["n"]) for ci, res in freeb]
+    cout = ext.run_many(cin, nproc=min(6, max(1, len(cin) // 30))) if cin else []
+    ctx.measurements.setdefault('phase_s', {})['T_stageB1_coarse'] = round(ctx.elapsed(), 1)
+    agree = [len(o) == 6 and o[0] == 1 and abs(o[1] / 10 ** 15 - res["delta"]) <= 1e-9 for (ci, res), o in zip(freeb, cout)]
+    fin = [enc_input_full(cases[ci], res["n"]) if ok else None for (ci, res), ok in zip(freeb, agree)]
+    fsel = [f for f in fin if f is not None]
+    fres = ext.run_many(fsel, nproc=min(6, max(1, len(fsel) // 30))) if fsel else []
+    it = iter(fres)
+    fout = [next(it) if f is not None else ([2] if o == [2] else ([0] + o[1:] if len(o) == 6 else o))
+            for f, o in zip(fin, cout)]
     ctx.measurements.setdefault('phase_s', {})['T_stageB_model'] = round(ctx.elapsed(), 1)
     conclusive = {}
     for (ci, res), fi, fo in zip(freeb, fin, fout):
@@ -712,13 +799,23 @@ def run(ctx):
                          slim(case), {"kind": case["kind"]})
             continue
         if not abs(co["delta"] - res["delta"]) <= 1e-9:
-            ctx.disagree("coarse offset delta_t: model %.12f, implementation %.12f" % (co["delta"], res["delta"]),
-                         slim(case), {"kind": case["kind"]})
+            ctx.disagree("coarse offset delta_t: model %.12f, implementation (recomputed from its own peak with the "
+                         "source's expression) %.12f" % (co["delta"], res["delta"]), slim(case), {"kind": case["kind"]})
             continue
         dist["coarse_offset_compared"] += 1
         conclusive[ci] = (fi, fo, mod)
     for ci, res in pending:
         if ci in conclusive:
+            continue
+        mcost, mnam = model_side_cost(cases[ci], res["delta"])
+        inam = sum(1 for j in res["ib1"] if j < 0) if res.get("ib1") is not None else None
+        if mcost > 20_000 and inam is not None and mnam > inam + 10:
+            # the offset recomputed with the source's expression cannot be the one the implementation used
+            ctx.disagree("with delta_t = (ipeak - n + 1) * tbin the first pass leaves %d events unassigned, the "
+                         "implementation left %d" % (mnam, inam), slim(cases[ci]), {"kind": cases[ci]["kind"]})
+            continue
+        if mcost > 2_000_000 or (mcost > 20_000 and cost_total + mcost > cost_budget):
+            dist["model_skipped_huge_second_pass"] += 1
             continue
         inputs.append(enc_input(cases[ci], res["delta"]))
         keep.append(ci)
@@ -748,7 +845,7 @@ def run(ctx):
     dist["parabolic_max_interior_peak"] = 0
     for xs, mo in zip(par_in, par_out):
         try:
-            ip, mx = impl_parabolic(xs)
+            ip, mx = impl_parabolic(xs, dtype=PAR_DTYPES[len(xs) % len(PAR_DTYPES)] if min(xs) >= -120 and max(xs) <= 120 else np.float64)
         except BaseException as e:      # noqa
             if isinstance(e, KeyboardInterrupt):
                 raise
@@ -784,6 +881,42 @@ def run(ctx):
             if npairs >= 2:
                 nontrivial.add(json.dumps([case["linear"], case["tbin"], res["delta"], case["tsa"], case["tsb"]]))
         sizes.append((len(inputs[k]) + len(outs[k]), k))
+    # parabolic_max, x.ndim == 2 branch: every row must come out as the 1-D call / the model gives for that row
+    n2 = 1500 if thorough else 250
+    mats = []
+    for _ in range(n2):
+        nc = rng.choice([1, 2, 3, 3, 4, 5, 8, 13, 40])
+        nr = rng.choice([1, 1, 2, 3, 5, 12])
+        rows = []
+        for _r in range(nr):
+            k = rng.random()
+            if k < 0.2:
+                rows.append([rng.randrange(0, 4)] * nc)                       # flat
+            elif k < 0.5:
+                h, a_, m_ = rng.randrange(0, nc), rng.randrange(1, 4), rng.randrange(0, 50)
+                rows.append([m_ - a_ * (i - h) ** 2 - rng.choice([0, 0, 1]) * (i - h) for i in range(nc)])
+            else:
+                rows.append([rng.randrange(0, 6) for _ in range(nc)])         # ties, maxima at either edge
+        mats.append(rows)
+    mout = ext.run_many([[6, len(m), len(m[0])] + [v for r in m for v in r] for m in mats], nproc=2)
+    dist["parabolic_max_2d_arrays"] = len(mats)
+    for m, mo in zip(mats, mout):
+        desc = {"kind": "parabolic2d", "x": m}
+        try:
+            got = impl_parabolic_2d(m, dtype=PAR_DTYPES[len(m[0]) % len(PAR_DTYPES)])
+            one = [impl_parabolic(r) for r in m]
+        except BaseException as e:      # noqa
+            if isinstance(e, KeyboardInterrupt):
+                raise
+            ctx.disagree("parabolic_max on a 2-D array: %r" % (e,), desc)
+            continue
+        exp = [(mo[2 * i] / FCN_SCALE, mo[2 * i + 1] / FCN_SCALE) for i in range(len(m))] if len(mo) == 2 * len(m) else None
+        if exp is None or any(not abs(g[0] - e_[0]) <= 1e-9 or not abs(g[1] - e_[1]) <= 1e-9 * (1 + abs(e_[1])) for g, e_ in zip(got, exp)):
+            ctx.disagree("parabolic_max on a 2-D array differs from the model: %s vs %s" % (got[:3], (exp or mo)[:3]), desc)
+        elif any(not abs(g[0] - o[0]) <= 1e-12 or not abs(g[1] - o[1]) <= 1e-12 * (1 + abs(o[1])) for g, o in zip(got, one)):
+            ctx.disagree("parabolic_max on a 2-D array differs from its own 1-D result row by row: %s vs %s" % (got[:3], one[:3]), desc)
+        if len(m) > 1 and len(m[0]) > 2:
+            nontrivial.add(json.dumps(["parabolic2d", m]))
     ctx.measurements.setdefault('phase_s', {})['T_parabolic_done'] = round(ctx.elapsed(), 1)
     # kernel re-evaluation (vm_compute) of the same `run` on a sample: smallest cases + random ones
     sizes.sort()
@@ -831,7 +964,7 @@ def run(ctx):
 
 def slim(case):
     """Replayable description (json floats round-trip exactly)."""
-    c = {k: case[k] for k in ("kind", "flavour", "linear", "tbin", "forced_rel", "tsa", "tsb", "queries") if k in case}
+    c = {k: case[k] for k in ("kind", "flavour", "also_plain", "positional", "view", "linear", "tbin", "forced_rel", "tsa", "tsb", "queries") if k in case}
     if "exact_float_pass1" in case:
         c["exact_float_pass1"] = case["exact_float_pass1"]
     if case.get("truth"):
@@ -845,6 +978,13 @@ def replay(ctx, data):
         print(json.dumps(data, indent=1)[:3000])
         return 1
     case = inp
+    if case.get("kind") == "parabolic2d":
+        m = case["x"]
+        got = impl_parabolic_2d(m)
+        mo = common.Extracted(PROP).run_many([[6, len(m), len(m[0])] + [v for r in m for v in r]], nproc=1)[0]
+        exp = [(mo[2 * i] / FCN_SCALE, mo[2 * i + 1] / FCN_SCALE) for i in range(len(m))]
+        print("implementation:", got, "model:", exp)
+        return 1 if any(not abs(g[0] - e[0]) <= 1e-9 or not abs(g[1] - e[1]) <= 1e-9 * (1 + abs(e[1])) for g, e in zip(got, exp)) else 0
     if case.get("kind") == "parabolic":
         xs = case["x"]
         ip, mx = impl_parabolic(xs)
